@@ -136,6 +136,15 @@ class AsyncProxy(BaseProxy):
             self._meta["models"]["M"]["any_inputs"] = True
         if simrec.get("meta"):
             self._meta = copy.deepcopy(simrec["meta"])
+        if simrec.get("children"):
+            # a second, NON-PUBLIC model whose entities only exist as children of the public model's entities, with its own
+            # attributes (roles by prefix as usual: pk persistent / ek event output, ik non-trigger / tik trigger input)
+            k = {"public": False, "params": [], "attrs": ["ik", "tik", "pk", "ek"], "trigger": ["tik"], "non-persistent": ["ek"]}
+            if simrec["children"] == "nolist":
+                k.pop("trigger")
+            if self._meta["models"]["M"].get("any_inputs"):
+                k["any_inputs"] = True
+            self._meta["models"]["K"] = k
         self.ctx.proxies[sid] = self
         return [3, 0]
 
@@ -148,8 +157,11 @@ class AsyncProxy(BaseProxy):
         ctx = self.ctx
         if func == "create":
             num, model = args
-            ents = [{"eid": f"E{self.nent + i}", "type": model} for i in range(num)]
+            ents = [{"eid": f"E{self.nent + i}" + (self.ctx.scn.get("eid_suffix") or ""), "type": model} for i in range(num)]
             self.nent += num
+            if S.sim_by_id(ctx.scn)[self.sid].get("children"):
+                for e in ents:
+                    e["children"] = [{"eid": "K" + e["eid"][1:], "type": "K"}]
             return ents
         if func == "setup_done":
             ctx.record({"k": "SETUP", "s": self.sid})
@@ -334,6 +346,12 @@ def build_world(ctx: Ctx, loop, world_kw=None, connect_order=None):
     conns = list(scn["conns"])
     if connect_order is not None:
         conns = [conns[i] for i in connect_order]
+    sfx = scn.get("eid_suffix") or ""
+
+    def eidx(e):
+        """index of the entity with (possibly decorated) id e in its simulator's entity list"""
+        return int((e[:-len(sfx)] if sfx and e.endswith(sfx) else e)[1:])
+
     calls = []  # [connection record of the call's options, [connections made by this call]]
     for c in conns:
         if scn.get("multipair") and c["sa"]:
@@ -367,9 +385,9 @@ def build_world(ctx: Ctx, loop, world_kw=None, connect_order=None):
             kw1 = {k: v for k, v in ckw.items() if k in ("time_shifted", "weak")}
             if c["init"]:
                 kw1["initial_data"] = c["init"]
-            world.connect_one(ents[c["src"]][int(c["se"][1:])], ents[c["dst"]][int(c["de"][1:])], c["sa"], c["da"], **kw1)
+            world.connect_one(ents[c["src"]][eidx(c["se"])], ents[c["dst"]][eidx(c["de"])], c["sa"], c["da"], **kw1)
             continue
-        world.connect(ents[c["src"]][int(c["se"][1:])], ents[c["dst"]][int(c["de"][1:])], *pairs, **ckw)
+        world.connect(ents[c["src"]][eidx(c["se"])], ents[c["dst"]][eidx(c["de"])], *pairs, **ckw)
     for c in conns:
         if c["sa"]:
             ctx.has_out.add(c["src"])
